@@ -7,6 +7,7 @@ package memberlist
 import (
 	"fmt"
 	"net"
+	"os"
 	"time"
 )
 
@@ -198,6 +199,19 @@ func genC08L(c *Ctx) *Plan {
 	if r.chance(0.3) {
 		p.Ops = append(p.Ops, Op{At: T + to*1_000_000 + 2_000_000_000, Kind: "shutdown", Node: lv})
 	}
+	if r.chance(0.35) && n >= 3 && p.Net.Loss == 0 {
+		// one peer misses all gossip around the leave (UDP cut, TCP open): it learns of the
+		// departure from a push/pull state exchange and must still record "left"
+		peer := (lv + 1 + r.intn(n-1)) % n
+		p.Cfg.DisableTcpPings = false
+		// the TCP fallback must be able to vouch for the leaver while UDP is cut, otherwise the
+		// isolated peer rightly declares it failed on its own evidence before it can learn of the leave
+		if p.Cfg.ProbeTimeoutMs*2 > p.Cfg.ProbeIntervalMs {
+			p.Cfg.ProbeTimeoutMs = p.Cfg.ProbeIntervalMs / 3
+		}
+		p.Net.Parts = append(p.Net.Parts, Partition{From: T - 500_000_000, To: T + to*1_000_000 + 3_000_000_000, A: []int{peer}, UDP: true, TCP: false})
+		p.P["udp_isolated_peer"] = int64(peer)
+	}
 	p.YieldOff = genYieldOff(r)
 	return p
 }
@@ -297,12 +311,19 @@ func execC08L(c *Ctx) {
 	if L.m != nil {
 		lListsPeers = len(L.m.Members()) - 1
 	}
-	budget := settleBudget(p.Cfg, p.N)
+	// budget without the retention window: the departed record must still be held (as "left")
+	// when the verdict is taken, so reaping (GossipToTheDeadTime = 1 h here) is never reached
+	cfgNoGTD := p.Cfg
+	cfgNoGTD.GossipToDeadMs = 0
+	budget := settleBudget(cfgNoGTD, p.N)
+	if budget > 20*time.Minute {
+		budget = 20 * time.Minute
+	}
 	allLeft := func() bool {
 		for i := range listedAtLeave {
 			n := cx.node(i)
 			v := n.view(L.name)
-			if v.Present && v.State != StateLeft {
+			if !v.Present || v.State != StateLeft {
 				return false
 			}
 		}
@@ -358,7 +379,7 @@ func execC08L(c *Ctx) {
 			for i := range listedAtLeave {
 				n := cx.node(i)
 				v := n.view(L.name)
-				if v.Present && v.State != StateLeft && v.Inc <= L.leaveInc+8 {
+				if (!v.Present || v.State != StateLeft) && v.Inc <= L.leaveInc+8 {
 					c.Violate("leave-not-recorded-as-left", "", n.name, "%s listed %s when it left (incarnation %d); %v after a successful Leave it records it as %s, not left", n.name, L.name, L.leaveInc, c.Sim.Now()-T, v)
 					break
 				}
@@ -382,7 +403,15 @@ func execC08L(c *Ctx) {
 			}
 		}
 	}
+	if _, ok := p.P["udp_isolated_peer"]; ok {
+		c.Reach("peer_learns_leave_by_pushpull")
+	}
 	c.Res.Nontrivial = len(listedAtLeave) > 0 && (okLeave || c.Res.Stats["leave_errors"] > 0)
+	if os.Getenv("VERIF_DEBUG") != "" {
+		for i := range listedAtLeave {
+			fmt.Fprintf(os.Stderr, "DEBUG seed=%d peer n%d view of leaver: %s okLeave=%v loss=%v iso=%v\n", c.Seed, i, cx.node(i).view(L.name), okLeave, p.Net.Loss, p.P["udp_isolated_peer"])
+		}
+	}
 	c.Stat("leave_msgs_sent", int64(len(leaveMsgs)))
 	c.Res.Sample = map[string]any{"n": p.N, "leaver": lv, "listed_at_leave": len(listedAtLeave), "leave_msgs": len(leaveMsgs)}
 	cx.finish()
